@@ -95,6 +95,8 @@ def classify(problem):
         return 'fault-free-backup-errors'
     if 'follow-up backup' in p:
         return 'follow-up-backup-fails'
+    if 'band selection LatestClosed' in p:
+        return 'latest-complete-selection'
     if 'reports errors' in p and 'listing band' in p:
         return 'interrupted-version-listing-errors'
     if 'stitching rule' in p or 'listing band' in p:
@@ -137,6 +139,11 @@ def reproduced(kind, out, bad):
     if kind == 'follow-up-backup-fails':
         return not out.get('follow_up_ok', True) or bool(out.get('follow_up_errors')) or bool(out.get('follow_up_mismatches')) \
             or not out.get('follow_up_restore_ok', True)
+    if kind == 'latest-complete-selection':
+        # natively: LatestClosed fails (or names another band) although a band with a tail exists
+        closed = [v['band'] for v in versions if v.get('closed')]
+        lc = str(out.get('latest_closed', ''))
+        return bool(closed) and lc != closed[-1] if closed else lc.startswith('b')
     if kind == 'interrupted-version-listing-errors':
         return any(v.get('restore_errors') for v in (out.get('versions') or []))
     if kind == 'interrupted-version-listing':
